@@ -155,7 +155,13 @@ pub async fn run(input: &str) -> Vec<String> {
                 let push_config = if toks[3] == "-" {
                     None
                 } else {
-                    Some(PushConfig { push_endpoint: format!("http://127.0.0.1:{}/{}", port, toks[3]), ..Default::default() })
+                    // twin subscriptions carry push-config attributes: they configure the endpoint, they are not message attributes
+                    let attributes: HashMap<String, String> = if toks[3].starts_with("twin") {
+                        [("x-goog-version".to_string(), "v1".to_string())].into_iter().collect()
+                    } else {
+                        HashMap::new()
+                    };
+                    Some(PushConfig { push_endpoint: format!("http://127.0.0.1:{}/{}", port, toks[3]), attributes, ..Default::default() })
                 };
                 match subscriber.create_subscription(Subscription { name: s(1), topic: s(2), ack_deadline_seconds: 10, push_config, ..Default::default() }).await {
                     Ok(_) => "ok".into(),
